@@ -10,6 +10,7 @@ from engine import pat
 from engine.util import own_nodes, calls_with_nodes, where
 
 RULES = {
+    "R-20.6": "storing a rdataset can REMOVE the NS rdataset of a node (Node.replace_rdataset evicts NS when a CNAME is stored, CNAME exclusivity): put_rdataset re-derives the delegation state afterwards - when the node was a delegation and holds no NS any more, the flag, the index entry and the subtree's GLUE flags go, exactly as in delete_rdataset(NS)",
     "R-20.5": "the delegation index is a B-tree shared copy-on-write between versions: it stays equal to the flags of ITS version only if no shared node is ever written (C19 R-19.1 adopted)",
     "R-20.1": "every site in btreezone.WritableVersion that obtains a fresh node re-derives or copies every NodeFlags member",
     "R-20.2": "the DELEGATION flag, the delegation index and the GLUE flags of the subtree change together (add/discard paired with the flag and update_glue_flag)",
@@ -324,6 +325,23 @@ def run(model, rep, tier):
         rep.check(bool(fresh_idx) and all(conds(x) != conds(dn) for x in fresh_idx), "R-20.2", wi.qualname, where(wi, wi.node), "a replacement writer starts with an empty delegation index",
                   "no arm gives a replacement writer an empty delegation index", stmt="fresh-index")
     rep.share(model, "C19", {"R-19.1"}, "R-20.5", "WritableVersion clones version.delegations (a BTreeSet) and version.nodes; a rolled-back or superseded writer must leave the older version's index intact")
+    # ---------------------------------------------------------------- R-20.6
+    pr = model.func("dns.btreezone.WritableVersion.put_rdataset")
+    c6 = CFG(pr.node, implicit_exc=False)
+    puts = [n for (n, c) in calls_with_nodes(c6) if isinstance(c.func, ast.Attribute) and c.func.attr in ("replace_rdataset", "_append_rdataset")]
+    discards = [n for (n, c) in calls_with_nodes(c6) if src(c.func) == "self.delegations.discard"]
+    evict_aware = model.func("dns.node.Node._append_rdataset")
+    evicts = "NodeKind" in src(evict_aware.node)
+    if not puts:
+        rep.blind("R-20.6", pr.qualname, where(pr, pr.node), "the `node.replace_rdataset(rdataset)` call was not found", stmt="ns-evicted")
+    else:
+        after = [d for d in discards if any(d.id in c6.reachable([p_.id]) for p_ in puts)]
+        tests_ns = [t for t in c6.nodes if t.kind == "test" and "dns.rdatatype.NS" in src(t.ast.test) and ("get_rdataset" in src(t.ast.test) or "find_rdataset" in src(t.ast.test) or "rdatasets" in src(t.ast.test))]
+        unflag = pat.has(pr.node, "node.flags &= ~NodeFlags.DELEGATION") and any(src(c.func) == "self.update_glue_flag" and len(c.args) == 2 and src(c.args[1]) == "False" for (n, c) in calls_with_nodes(c6))
+        rep.check((not evicts) or (bool(after) and bool(tests_ns) and bool(unflag)), "R-20.6", pr.qualname, where(pr, puts[0].ast),
+                  "after the store, a delegation whose NS rdataset was evicted is un-delegated (flag, index, subtree glue)",
+                  "Node._append_rdataset can evict the NS rdataset (CNAME exclusivity), but put_rdataset never re-derives the delegation state after the store: `replace('sub', <CNAME>)` on a "
+                  "delegation point leaves DELEGATION on a node without NS, its name in the index and GLUE on the subtree", stmt="ns-evicted")
     rep.meta["explanation"] = (
         "Exhaustiveness of flag re-derivation over the NodeFlags enum at every site that replaces a node, block-level pairing of flag/index/"
         "subtree updates, and shape rules for the helper predicates. bounds() results and nested-cut semantics are NOT decided (the nested-cut "
@@ -341,6 +359,8 @@ def _blocks(fn):
 
 
 WITNESSES = [
+    {"id": "c20-put-cname-keeps-delegation", "rule": "R-20.6", "file": "dns/btreezone.py", "expect": "fires",
+     "old": "            node.flags &= ~NodeFlags.DELEGATION  # type: ignore\n            self.delegations.discard(name)\n            self.update_glue_flag(name, False)\n\n    def delete_rdataset(", "new": "            pass\n\n    def delete_rdataset("},
     {"id": "c20-writer-clones-oldest-version", "rule": "R-20.2", "file": "dns/btreezone.py", "expect": "fires",
      "old": "            version = zone._versions[-1]", "new": "            version = zone._versions[0]"},
     {"id": "c20-is-origin-uses-zone-origin", "rule": "R-20.1", "file": "dns/btreezone.py", "expect": "fires",
